@@ -62,6 +62,14 @@ def gen_program(rng: random.Random, mapping: str, big: bool = False) -> dict:
                                               {"k": "ins", "m": "lda", "shape": "imm", "sz": "w", "e": E("DEFA")}], "e": [{"k": "data", "d": "db", "es": [E(0xD0)]}]},
             {"k": "if", "c": E("DEFB"), "t": [{"k": "block", "b": [{"k": "data", "d": "dl", "es": [E("DEFB", "*", 2), E("DEFC")]}]},
                                               {"k": "for", "v": "itD", "a": E(0), "b": E("DEFA", "&", 3), "body": [{"k": "data", "d": "db", "es": [E("itD", "+", "DEFB")]}]}]}]
+    # a command-line definition is an ordinary top-level constant: inner scopes may define the same name for themselves
+    dbn = lambda *v: {"k": "data", "d": "db", "es": [E(x) for x in v]}  # noqa: E731
+    tail += [{"k": "block", "b": [{"k": "sym", "n": "DEFA", "e": E(0x20)}, dbn("DEFA")]},
+             {"k": "block", "b": [{"k": "assign", "n": "DEFA", "e": E(3)}, dbn("DEFA"), {"k": "block", "b": [dbn(E("DEFA", "+", 1)[0] if False else "DEFA")]}]},
+             {"k": "macro", "n": "shadowD", "ps": ["DEFA", "DEFC"], "b": [dbn("DEFA"), {"k": "data", "d": "dw", "es": [E("DEFC", "+", 1)]}]},
+             {"k": "call", "n": "shadowD", "as": [E(0x41), E(0x1234)]},
+             {"k": "for", "v": "DEFB", "a": E(0), "b": E(2), "body": [dbn("DEFB")]},
+             {"k": "scope", "n": "nsD", "b": [{"k": "label", "n": "DEFA"}, {"k": "data", "d": "dl", "es": [E("DEFA")]}]}]
     base = 0xC25000 if rom == "high" else 0x03A000
     overlap = [{"k": "org", "e": E(base + 0x10)}, {"k": "data", "d": "db", "es": [E(0x11)] * 8},
                {"k": "org", "e": E(base + 0x0C)}, {"k": "data", "d": "db", "es": [E(0x22)] * 8}]      # the later statement wins where blocks overlap
